@@ -233,6 +233,7 @@ def run(ctx, n=None):
         judge(ctx, res, d6, "000", impl, "D6-demo")
     finally:
         w.close()
+    deep_nesting_probe(ctx, res)
     # model correspondence
     lines = ["ser.loads %s0 %s" % (mode[:2], pyval.hexs(data)) for data, mode, _ in items]
     outs = ctx.driver.ask(lines)
@@ -257,6 +258,32 @@ def run(ctx, n=None):
         else:
             res.mismatches.append(dict(op="ser.loads", hex=pyval.hexs(data)[:300], mode=mode, impl=impl[:300], model=out[:300]))
     return res
+
+
+def deep_nesting_probe(ctx, res):
+    """known finding C13-deep-nesting-hash-stack-overflow: ~1.5 MB of plain bytes — a tuple nested 300 000 levels deep
+    (BUILDTUPLE x n, built iteratively by the loader) made a member of a set — crash the interpreter: hashing the tuple
+    recurses in C without a guard.  Run in a process of its own; a segmentation fault is the finding, anything else is judged
+    like every other input (typed error or a value)."""
+    import subprocess
+    import sys
+
+    n = 300000
+    code = ("import execnet\n"
+            "data = b'\\x02L' + b'@\\x00\\x00\\x00\\x01' * %d + b'O\\x00\\x00\\x00\\x01Q'\n"
+            "try:\n    execnet.loads(data); print('ok')\n"
+            "except (execnet.DataFormatError, EOFError) as e:\n    print('typed', type(e).__name__)\n"
+            "except BaseException as e:\n    print('other', type(e).__name__)\n" % n)
+    env = dict(os.environ, PYTHONPATH=os.path.join(common.REPO, "src"))
+    p = subprocess.run([sys.executable, "-c", code], env=env, capture_output=True, text=True, timeout=120)
+    res.count(("deep-nesting-probe", n))
+    case = dict(shape="NONE BUILDTUPLE(1) x %d SET(1) STOP" % n, bytes=2 + 5 * n + 6)
+    if p.returncode < 0:
+        res.violations.append(dict(case=case, what="loads() of %d plain bytes killed the interpreter with signal %d (no exception at all)"
+                                   % (case["bytes"], -p.returncode), finding="C13-deep-nesting-hash-stack-overflow", impl="signal %d" % -p.returncode))
+    elif not p.stdout.startswith(("ok", "typed")):
+        res.violations.append(dict(case=case, what="loads() of a deeply nested tuple in a set: %s %s" % (p.stdout.strip()[:80], p.stderr.strip()[-120:]),
+                                   finding=None, impl=p.stdout.strip()[:80]))
 
 
 def search(ctx, prev):
